@@ -1,13 +1,18 @@
 import SqlProofs.AccessorSpec
+import SqlProofs.IdentShape.Context
+import SqlProofs.IdentShape.Names
 /-!
 # C12 — Identifier accessors return the written name, qualifier and alias
 
 Theorems over every Identifier/Function of *canonical shape* `[qual .]? name (ws+ [AS ws+]? alias)?` where `qual`, `name`, `alias`
 are arbitrary Name / quoted (`"…"` String.Symbol, `` `…` `` Name) tokens and `ws+` any non-empty whitespace run
 (statements are in `SqlProofs/AccessorSpec.lean`, section f; restated here by `type_of%` so that they cannot drift).
-That the grouping engine delivers exactly this shape for a reference written in a select list, FROM list, JOIN, UPDATE/INSERT target
-or subquery is *not* a theorem: it is checked on the real code by the oracle (expectations come from the generator's AST) and by
-stream S-TREE/S-ACC on the same inputs.
+That the grouping engine delivers this shape in context is proved by *parametricity + a finite table*: grouping commutes with every
+admissible re-spelling of names, keyword case and whitespace values (`respell_group_names`, all 25 passes), so the tree of any spelling is the
+re-spelling of the tree of a placeholder skeleton; `accessors_of_skelCheck` turns a skeleton whose check evaluates to `true` into the accessor
+facts for every spelling.  The table of 19 contexts × 30 reference forms is decided by the kernel in `SqlPropsSlow/C12Table.lean`
+(thorough tier: ≈ 30 min CPU) and evaluated by the compiled driver in the quick tier (`skelcheck`).  Contexts outside the table are checked
+on the real code by the oracle (expectations come from the generator's AST) and by streams S-TREE/S-ACC.
 -/
 namespace Sql.C12
 open Sql.Acc
@@ -32,5 +37,14 @@ theorem has_alias_canonical : type_of% @hasAlias_identShape := @hasAlias_identSh
 (every tree `parse()` returns: C01 non-empty tokens + grouping preserves leaves) -/
 theorem names_only_index_error : type_of% @names_only_indexError := @names_only_indexError
 theorem names_total_on_nonempty : type_of% @names_total := @names_total
+
+/-- grouping commutes with re-spelling names (values of `Name`/`String.Symbol` leaves), keyword case and whitespace values -/
+theorem respell_group_names : type_of% @Sql.respell_group_names := @Sql.respell_group_names
+/-- **from one checked skeleton to every spelling**: if `skelCheck sk` evaluates to `true` (lexer → grouping → canonical-shape parser on the
+placeholder text), then for every admissible re-spelling and every sufficient fuel the grouped tree of the re-spelled tokens contains an
+Identifier on which the five accessors return the re-spelled written parts -/
+theorem accessors_of_checked_skeleton : type_of% @accessors_of_skelCheck := @accessors_of_skelCheck
+/-- renamings whose names avoid the pieces of CREATE/TABLE/AS (`NameOk`) are admissible -/
+theorem admissible_renaming : type_of% @Sql.admissible_renameRespell := @Sql.admissible_renameRespell
 
 end Sql.C12
